@@ -47,6 +47,7 @@ type sthread struct {
 	stalled bool // suspected blocked on something that is not a gate
 	steps   int
 	started bool
+	foreign bool
 }
 
 // Chooser picks which parked thread runs next. enabled is sorted by creation order;
@@ -72,6 +73,37 @@ func (s *Sched) ping() {
 	case s.notify <- struct{}{}:
 	default:
 	}
+}
+
+// liveGoroutines returns the ids of all goroutines that currently exist.
+func liveGoroutines() map[int64]struct{} {
+	buf := make([]byte, 1<<16)
+	for {
+		n := runtime.Stack(buf, true)
+		if n < len(buf) {
+			buf = buf[:n]
+			break
+		}
+		buf = make([]byte, 2*len(buf))
+	}
+	out := map[int64]struct{}{}
+	for len(buf) > 0 {
+		i := bytes.Index(buf, []byte("goroutine "))
+		if i < 0 {
+			break
+		}
+		if i == 0 || buf[i-1] == '\n' {
+			rest := buf[i+10:]
+			j := bytes.IndexByte(rest, ' ')
+			if j > 0 {
+				if id, err := strconv.ParseInt(string(rest[:j]), 10, 64); err == nil {
+					out[id] = struct{}{}
+				}
+			}
+		}
+		buf = buf[i+10:]
+	}
+	return out
 }
 
 func gid() int64 {
@@ -130,7 +162,7 @@ func (s *Sched) Yield(point string) {
 	if th == nil {
 		// foreign goroutine (spawned by the code under test): becomes a thread
 		s.bgSeq++
-		th = &sthread{name: fmt.Sprintf("bg%d", s.bgSeq), gid: g, wake: make(chan struct{}, 1)}
+		th = &sthread{name: fmt.Sprintf("bg%d", s.bgSeq), gid: g, wake: make(chan struct{}, 1), foreign: true}
 		s.threads[g] = th
 		s.order = append(s.order, th)
 		s.running++ // it was running un-tracked until now
@@ -157,15 +189,53 @@ func (s *Sched) Run(maxSteps int) bool {
 	last := ""
 	for step := 0; step < maxSteps; step++ {
 		// wait until nothing is running (or the runner is judged stalled)
+		waited := time.Duration(0)
+		poll := 200 * time.Microsecond
 		for {
 			s.mu.Lock()
 			if s.running <= 0 {
 				break // keep the lock
 			}
+			foreign := false
+			for _, th := range s.order {
+				if th.foreign && th.started && !th.parked && !th.done && !th.stalled {
+					foreign = true
+				}
+			}
 			s.mu.Unlock()
+			wait := s.stallDur - waited
+			if foreign && poll < wait {
+				wait = poll
+			}
+			if wait <= 0 {
+				wait = time.Microsecond
+			}
 			select {
 			case <-s.notify:
-			case <-time.After(s.stallDur):
+				waited = 0
+				continue
+			case <-time.After(wait):
+				waited += wait
+			}
+			if foreign {
+				// a foreign goroutine (spawned by the code under test) reports neither
+				// its next gate nor its end: look whether it still exists
+				alive := liveGoroutines()
+				s.mu.Lock()
+				for _, th := range s.order {
+					if th.foreign && th.started && !th.parked && !th.done && !th.stalled {
+						if _, ok := alive[th.gid]; !ok {
+							th.done = true
+							s.running--
+						}
+					}
+				}
+				s.mu.Unlock()
+				if poll < 5*time.Millisecond {
+					poll *= 2
+				}
+			}
+			if waited >= s.stallDur {
 				// the running thread blocks on something that is not a gate
 				s.mu.Lock()
 				if s.running > 0 {
@@ -182,6 +252,7 @@ func (s *Sched) Run(maxSteps int) bool {
 					}
 				}
 				s.mu.Unlock()
+				waited = 0
 			}
 		}
 		var enabled []*sthread
